@@ -231,7 +231,23 @@ func run(c Case) vkit.Result {
 		}
 	}
 	sort.Strings(gained)
+	// second oracle, on the decrypted fields (the harness holds the cipher): if the modified string is a key the broker
+	// accepts at all (own contract, signature, master id, not expired), then compared with the key(s) the attacker held it
+	// must not carry a permission bit they lacked, a different target, or a later expiry. A different 32-bit target hash
+	// counts as a gain even if no probe channel has that hash: murmur preimages are found by brute force in seconds.
+	// It is applied where the attacker can predict the resulting plaintext: stream ciphers (v2, v3: XOR differences carry
+	// over) and whole-cipher-block copies under v1's ECB mode. Other modifications of a v1 key garble an 8-byte block into
+	// pseudo-random fields (or, for splices between keys of different salt, fields XOR-ed with an unknown salt difference) the attacker cannot know (exploiting them is the 2^-32 guess this check does not claim to find);
+	// those are counted, and still subject to the probe-set oracle above.
 	labels := []string{fmt.Sprintf("license-v%d", c.Lic), "mod-" + c.Mod.Kind}
+	if msg := fieldGain(e, c, enc, other, mod); msg != "" {
+		predictable := c.Lic >= 2 || (c.Mod.Kind == "splice" && c.Key.Salt == c.Other.Salt) || ((c.Mod.Kind == "swap" || c.Mod.Kind == "dup") && c.Mod.Wide)
+		if predictable {
+			gained = append(gained, msg)
+		} else {
+			labels = append(labels, "v1-block-garbled-into-unpredictable-fields")
+		}
+	}
 	if len(got) > 0 {
 		labels = append(labels, "modified-key-still-grants-something")
 	}
@@ -241,11 +257,53 @@ func run(c Case) vkit.Result {
 		if c.Mod.Kind == "splice" && c.Lic == 1 && c.Key.Salt == c.Other.Salt {
 			r.Finding = "C12-ecb-block-splice-v1"
 		}
+		if (c.Mod.Kind == "swap" || c.Mod.Kind == "dup") && c.Mod.Wide && c.Lic == 1 {
+			r.Finding = "C12-ecb-block-rearrange-v1"
+		}
 		r.Labels = labels
 		return r
 	}
 	valid := len(mod) == 32 && strings.Trim(mod, alphabet) == ""
 	return vkit.Result{NonTrivial: valid, Labels: labels}
+}
+
+func fieldGain(e *env, c Case, enc, other, mod string) string {
+	kg := e.b.S.VerifKeygen()
+	k, err := kg.DecryptKey(mod)
+	if err != nil || len(k) != 24 {
+		return ""
+	}
+	lic := e.b.Lic
+	if k.Contract() != lic.Contract() || k.Signature() != lic.Signature() || uint32(k.Master()) != lic.Master() || k.IsExpired() || k.Permissions() == 0 {
+		return "" // refused everywhere or good for nothing
+	}
+	holders := []string{enc}
+	if c.Mod.Kind == "splice" {
+		holders = append(holders, other)
+	}
+	why := ""
+	for _, h := range holders {
+		o, _ := kg.DecryptKey(h)
+		if o.IsExpired() {
+			why = "the held key had expired, the modified one is valid"
+			continue
+		}
+		if extra := k.Permissions() &^ o.Permissions(); extra != 0 {
+			why = fmt.Sprintf("permission bits %08b gained", extra)
+			continue
+		}
+		if string(k[12:15]) != string(o[12:15]) || string(k[16:20]) != string(o[16:20]) {
+			why = fmt.Sprintf("target changed from (path %x, hash %x) to (path %x, hash %x)", []byte(o[12:15]), []byte(o[16:20]), []byte(k[12:15]), []byte(k[16:20]))
+			continue
+		}
+		oe, ke := o.Expires().Unix(), k.Expires().Unix()
+		if oe != 0 && (ke == 0 || ke > oe) {
+			why = fmt.Sprintf("expiry moved from %d to %d", oe, ke)
+			continue
+		}
+		return "" // no more powerful than a key the attacker already held
+	}
+	return "FIELDS: " + why
 }
 
 func TestTamper(t *testing.T) { vkit.Check(t, genCase, run) }
@@ -279,4 +337,6 @@ func TestSingleBitFlips(t *testing.T) {
 	}
 	r := run(Case{Lic: 1, Key: KeySpec{Perm: security.AllowRead, Target: "a/", Expiry: "none", Salt: 5}, Other: KeySpec{Perm: security.AllowWrite, Target: "b/", Expiry: "none", Salt: 5}, Mod: Mod{Kind: "splice", I: 2}})
 	vkit.Probe("C12-ecb-block-splice-v1", r.Fail != "" && r.Finding == "C12-ecb-block-splice-v1", r.Fail)
+	r = run(Case{Lic: 1, Key: KeySpec{Perm: security.AllowReadWrite, Target: "a/", Expiry: "past", Salt: 5}, Other: KeySpec{Perm: security.AllowReadWrite, Target: "a/", Expiry: "past", Salt: 5}, Mod: Mod{Kind: "dup", Wide: true, I: 0, J: 2}})
+	vkit.Probe("C12-ecb-block-rearrange-v1", r.Fail != "" && r.Finding == "C12-ecb-block-rearrange-v1", r.Fail)
 }
